@@ -1,3 +1,7 @@
+import os
+from concurrent.futures import ThreadPoolExecutor
+
+import vlib
 from check import Prop
 
 
@@ -8,7 +12,7 @@ class C34(Prop):
                dict(pkg="internal/protocols/whip", test="TestVerifC34Whip"),
                dict(pkg="internal/protocols/httpp", test="TestVerifC34Http"),
                dict(pkg="internal/protocols/rtsp", test="TestVerifC34Rtsp")]
-    n_quick = 500          # per driver
+    n_quick = 400          # per driver
     n_thorough = 8000
     shard = 250
     ready = True
@@ -44,6 +48,38 @@ class C34(Prop):
              "- KNOWN_FINDINGS. By-design limits stated as preconditions with refutation witnesses: ':' in any legacy field, "
              "a last legacy field ending in '#feedbackplay', a Bearer token with exactly one ':', Basic only as first value.",
         technique="Coq proofs by list induction (print/parse inverses, lia for base64 arithmetic) + correspondence by vm_compute")
+
+    def run_drivers(self, ctx, n, seed, replay=None):
+        """Same as Prop.run_drivers, but the four packages are built and run concurrently (each with its own overlay
+        directory); cases keep the driver order, so ids are reproducible."""
+        def one(kd):
+            k, d = kd
+            wd = os.path.join(ctx.workdir, "drv%d_%d" % (k, n))
+            os.makedirs(wd, exist_ok=True)
+            outp = os.path.join(ctx.workdir, "driver_%d_%d.jsonl" % (k, n))
+            if os.path.exists(outp):
+                os.remove(outp)
+            env = {"VERIF_SEED": seed, "VERIF_N": n, "VERIF_OUT": outp, "VERIF_TIER": ctx.tier, "VERIF_WORK": wd}
+            env.update(d.get("env", {}))
+            if replay:
+                env["VERIF_REPLAY"] = replay
+            rc, out = vlib.run_driver(wd, d["pkg"], d["test"], env, timeout=d.get("timeout", 900))
+            return d, rc, out, vlib.read_jsonl(outp)
+
+        cases, summaries, errors = [], [], []
+        with ThreadPoolExecutor(max_workers=len(self.drivers)) as ex:
+            results = list(ex.map(one, enumerate(self.drivers)))
+        for d, rc, out, rows in results:
+            for r in rows:
+                if "summary" in r:
+                    summaries.append(r["summary"])
+                else:
+                    r["driver"] = d["test"]
+                    r["id"] = len(cases)
+                    cases.append(r)
+            if rc != 0:
+                errors.append("driver %s failed (rc=%d):\n%s" % (d["test"], rc, out[-6000:]))
+        return cases, summaries, errors
 
 
 PROP = C34()
